@@ -15,7 +15,8 @@ MODEL_TRUST = [
 class C02(Prop):
     id = 'C02'
     module = 'Cbor.Props.C02'
-    theorems = ['Props.C02.C02_load_iff', 'Props.C02.C02_load_eq', 'Props.C02.C02_tokenise', 'Props.C02.C02_read_bounds',
+    extra_modules = ['Cbor.Props.HeapLoad']
+    theorems = ['Props.HeapLoad.loaded_tree_owned', 'Props.HeapLoad.hload_result', 'HB.hload_refines', 'Props.C02.C02_load_iff', 'Props.C02.C02_load_eq', 'Props.C02.C02_tokenise', 'Props.C02.C02_read_bounds',
                 'Lemmas.Refine.load_eq', 'Lemmas.Fund.abs_decode_eq', 'Lemmas.sd_spec']
     trusted_base = BASE_TRUST + MODEL_TRUST
     rule = ('all byte strings of length <= 2, enumerated well-formed items of every shape (major type x argument width x definite/indefinite x '
